@@ -204,6 +204,49 @@ def run(ctx):
                           {"codec": c.ident(), "packet": dict(zip(FIELDS, [x.hex() if isinstance(x, bytes) else x for x in t])), "why": why,
                            "how": "codec.decode(codec.encode(packet)) with the codec class of prudp.py built from these settings"})
 
+    # ---- 1b. the encoding is a function of the packet's CURRENT fields: one packet object filled in, encoded, changed and encoded
+    # again (a sweep over a header field that reuses a base packet; a sender building fragments / retries from one object), a
+    # copy.copy() of an encoded packet given new values, a decoded packet that is changed and re-encoded -------------------
+    import copy
+    reuse_fail = 0
+    n_reuse = 0
+    for c in codecs:
+        for rep in range(2 if c.enc == "v0" else 30 * (1 if quick else 8)):
+            obj_codec = c.new()            # the codec object is reused too
+            ts = [c.gen(rng) for _ in range(rng.randint(2, 6))]
+            if rng.random() < 0.6:
+                # the same type/flags with other ids / payload: the fields an endpoint changes between fragments and retries
+                base = ts[0]
+                ts = [base] + [base[:8] + t[8:11] + base[11:16] + t[16:18] for t in ts[1:]]
+            how = rng.choice(["same-object", "copy", "decoded"])
+            p = make_packet(ts[0])
+            first = safe(obj_codec.encode, p)
+            for k, t in enumerate(ts[1:], 1):
+                if how == "copy":
+                    p = copy.copy(p)
+                elif how == "decoded" and isinstance(first, bytes):
+                    d = safe(c.new().decode, first)
+                    if not isinstance(d, Exception) and len(d) == 1:
+                        p = d[0]
+                for f, v in zip(FIELDS, t):
+                    setattr(p, f, v)
+                got = safe(obj_codec.encode, p)
+                want = c.encode(t)           # a fresh packet object with the same fields
+                n_reuse += 1
+                if isinstance(want, bytes) and got != want and reuse_fail < 4:
+                    reuse_fail += 1
+                    back = safe(c.new().decode, got) if isinstance(got, bytes) else got
+                    diff = []
+                    if not isinstance(back, Exception) and len(back) == 1:
+                        diff = [(f, a, b) for f, a, b in zip(FIELDS, t, fields_of(back[0])) if a != b]
+                    ctx.violation("%s-reused-object:%s" % (c.enc, how),
+                                  "PRUDP %s: a packet object that was encoded, given new field values (%s) and encoded again does not encode its current fields: "
+                                  "decode(encode(p)) differs from p in %s" % (c.enc, how, ", ".join("%s: set %r, decoded %r" % (f, a if f != "payload" else a[:12], b if f != "payload" else b[:12]) for f, a, b in diff[:4]) or "the bytes (%r)" % (got if isinstance(got, Exception) else got[:24].hex(),)),
+                                  {"codec": c.ident(), "how": how, "step": k,
+                                   "packets": [dict(zip(FIELDS, [x.hex() if isinstance(x, bytes) else x for x in t_])) for t_ in ts[:k + 1]]})
+                first = got
+    ctx.tag("reused-packet-object encodes", n_reuse)
+
     # ---- 2. datagrams of 1..6 packets -----------------------------------------------------------------
     n_dgram = 3000 * scale
     for i in range(n_dgram):
